@@ -229,9 +229,28 @@ class Model:
                     c.bases.append(bc)
                     bc.subclasses.append(c)
 
+    def add_reference_module(self, name: str, source: str) -> "Module":
+        """Index a reference module written by a rule (published definitions as Python source) next to the repo's
+        modules, so that the same evaluator turns it into terms.  It is not part of the digest / file count."""
+        tree = ast.parse(source, filename=f"<{name}>")
+        m = Module(name, f"<{name}>", f"<{name}>", tree, source)
+        self.modules[name] = m
+        before = set(self.classes)
+        self._index_module(m)
+        for q in set(self.classes) - before:
+            c = self.classes[q]
+            for b in c.base_exprs:
+                bc = self.resolve_class_expr(c.module, b)
+                if bc is not None:
+                    c.bases.append(bc)
+                    bc.subclasses.append(c)
+        return m
+
     def digest(self) -> str:
         h = hashlib.sha256()
         for name in sorted(self.modules):
+            if self.modules[name].path.startswith("<"):
+                continue
             h.update(name.encode())
             h.update(self.modules[name].source.encode())
         return h.hexdigest()[:16]
